@@ -77,7 +77,11 @@ ItemDom(p, c) ==
                                       ELSE {DTstrName(P2Name)}
     [] c = "sw"        -> SwDom
 \* what may stand under key 265 (the dispatch selector), beside the declared profile itself
-SelectorDom == {DNone, DTstrName(P1Name), DTstrName(P2Name), DTstrName("http://UNKNOWN"), DTstrName("http://example.com/x2"), DTstrName(""), DNull, DUndef,
+SelectorDom == {DNone, DTstrName(P1Name), DTstrName(P2Name), DTstrName("http://UNKNOWN"),
+                \* names that differ from a registered one only by what a URI normalisation would hide
+                DTstrName("HTTP://arm.com/psa/2.0.0"), DTstrName("Http://arm.com/psa/2.0.0"), DTstrName("http://arm.com/psa/2.0.0#"),
+                DTstrName("http://arm.com/psa/2.0.0?"), DTstrName("http://arm.com/psa/2.0.0/"), DTstrName("http://ARM.com/psa/2.0.0"),
+                DTstrName("http://arm.com:80/psa/2.0.0"), DTstrName("psa_iot_profile_1"), DTstrName(" http://arm.com/psa/2.0.0"), DTstrName("http://example.com/x2"), DTstrName(""), DNull, DUndef,
                 DInt(2), DBstr(3, 2), DTstrBadUtf8, DTag(32, DTstrName(P2Name)), DArr(<<>>), DIndefTstr(24)}
 \* unknown extra entries (key descriptor, value descriptor)
 Extras == {KV(DInt(0), DInt(0)), KV(DInt(-1), DNull), KV(DInt(11), DBstr(3, 2)), KV(DInt(2401), DArr(<<DInt(1), DArr(<<>>)>>)), KV(DInt(-75011), DMapEmpty),
@@ -88,6 +92,6 @@ Doc == [dom |-> [p \in {"P1", "P2"} |-> [c \in Claims |-> ItemDom(p, c)]], selec
         keys |-> [P1 |-> KeysP1, P2 |-> KeysP2], order |-> [P1 |-> EmitOrder("P1"), P2 |-> EmitOrder("P2")]]
 ASSUME JsonSerialize(IOEnv.OUT, Doc)
 VARIABLE dummy
-GInit == dummy = 0 /\ Init
-GNext == UNCHANGED <<dummy, obj, ret>>
+GInit == dummy = 0
+GNext == UNCHANGED dummy
 ====
